@@ -2,6 +2,7 @@ import AtreeProofs.Codec.CmpSlab
 import AtreeProofs.Codec.CmpFix
 import AtreeProofs.Codec.RoundTripW
 import AtreeProofs.Codec.Hoisted
+import AtreeProofs.Codec.VDepthW
 /-
   The round trip, the re-encoding fixpoint and the length law for ALL SEVEN slab kinds at once.
 
@@ -103,10 +104,13 @@ theorem ArrDataOKI.toC {a : ArrData} (ok : ArrDataOKI a) : ArrDataOKC a where
 
 /-- What encoder and decoder rely on, for every slab kind of the model:
     * `.data / .index / .storable` — `SlabOK` (`DataOK` / `MetaOK` / `validElem`);
-    * `.adata a` — `ArrDataOKC a` (at least one inlined array / map / compact map, any depth) or
-      `ArrDataOKW a` (wrapped elements, no inlined child);
-    * `.mdata m` — `MapDataOKC m` (inlined children in any form OR none: `MapDataOK.toC`,
-      `MapDataOKI.toC`);
+    * `.adata a` — `ArrDataOKX a` (at least one inlined array / map / compact map, any depth) or
+      `ArrDataOKWX a` (wrapped elements, no inlined child);
+    * `.mdata m` — `MapDataOKX m` (inlined children in any form OR none);
+      the nesting clause of the three is the EXACT one, `Slab.vdepth ≤ maxNestedLevels` (VDepthSlab.lean,
+      VDepthW.lean): one level more and the register does not decode.  The older predicates with the
+      over-approximating clause `vneedI ≤ maxNestedLevels` imply them (`MapDataOKC.toX`, `MapDataOK.toC`,
+      `MapDataOKI.toX`, `ArrDataOKC.toX`, `ArrDataOKI.toX`, `ArrDataOKW.toX`);
     * `.mindex m` — `MapMetaOK m`;
     * `.storableG id s` — the hypotheses of `decode_encode_storable_wrapped`: `s` is a wrapper
       (`isFlat = false`, no inlined slab: the Go encoder refuses those in a large-value slab) of
@@ -115,8 +119,8 @@ def SlabOKG : Slab → Prop
   | .data ty s => SlabOK (.data ty s)
   | .index ty m => SlabOK (.index ty m)
   | .storable id e => SlabOK (.storable id e)
-  | .adata a => ArrDataOKC a ∨ ArrDataOKW a
-  | .mdata m => MapDataOKC m
+  | .adata a => ArrDataOKX a ∨ ArrDataOKWX a
+  | .mdata m => MapDataOKX m
   | .mindex m => MapMetaOK m
   | .storableG _ s => s.RT ∧ s.noInl ∧ s.isFlat = false ∧ s.vneed ≤ maxNestedLevels
 
@@ -205,12 +209,12 @@ theorem decodeSlab_encodeSlab_all (s : Slab) (ok : SlabOKG s) (n : Nat) :
     simpa [normSlab, Slab.decodeAllocsG, Slab.decodeAllocs] using this
   | adata a =>
     rcases ok with okc | okw
-    · have := decodeSlab_encodeArrDataC a okc [] n
+    · have := decodeSlab_encodeArrDataX a okc [] n
       simp only [List.append_nil, ne_eq, not_true_eq_false, ↓reduceIte] at this
       simp only [Slab.id, encodeSlab, normSlab, Slab.decodeAllocsG]
       rw [this]
       simp only [Nat.add_assoc]
-    · have := decodeSlab_encodeArrDataW a okw [] n
+    · have := decodeSlab_encodeArrDataWX a okw [] n
       simp only [List.append_nil, ne_eq, not_true_eq_false, ↓reduceIte] at this
       have hnc := noCompactSts_of_noInl a.elems okw.noInl
       have hxs : (encSts a.elems []).2 = [] := encSts_noInl a.elems [] okw.noInl
@@ -218,7 +222,7 @@ theorem decodeSlab_encodeSlab_all (s : Slab) (ok : SlabOKG s) (n : Nat) :
       rw [this, normSts_noCompact a.elems [] hnc, hxs]
       simp only [iedAllocsC, List.isEmpty_nil, ↓reduceIte, Nat.zero_add, Nat.add_assoc]
   | mdata m =>
-    have := decodeSlab_encodeMapDataC m ok [] n
+    have := decodeSlab_encodeMapDataX m ok [] n
     simp only [List.append_nil] at this
     simp only [Slab.id, encodeSlab, normSlab, Slab.decodeAllocsG]
     rw [this]
@@ -246,10 +250,10 @@ theorem encodeSlab_normSlab (s : Slab) (ok : SlabOKG s) : encodeSlab (normSlab s
   | storableG _ _ => rfl
   | adata a =>
     rcases ok with okc | okw
-    · exact encodeArrData_norm a okc
+    · exact encodeArrData_normX a okc.pre
     · have hnc := noCompactSts_of_noInl a.elems okw.noInl
       simp only [normSlab, normSts_noCompact a.elems [] hnc]
-  | mdata m => exact encodeMapData_norm m ok
+  | mdata m => exact encodeMapData_normX m ok.pre
 
 /-- decoding never changes the size a slab reports -/
 theorem byteSize_normSlab (s : Slab) (ok : SlabOKG s) : (normSlab s).byteSize = s.byteSize := by
